@@ -968,6 +968,10 @@ class PresentationDataValueItem(object):
         :return: decoded presentation data value item
         """
         item_length, context_id = cls.header.unpack(stream.read(5))
+        if item_length < 1:
+            # no room even for the context ID: reading "item_length - 1" bytes would
+            # read everything up to the end of the PDU, following items included
+            raise ValueError('Presentation Data Value Item with zero length')
         data_value = stream.read(int(item_length) - 1)
         return cls(context_id, data_value)
 
